@@ -714,6 +714,7 @@ def run(eng, rep):
                 "(soft_restart) -- is entailed by the path condition, decided by truth table over the atoms of the function with complementary "
                 "comparisons identified; counting data-flow proves exactly one nruns increment per run end on every break/continue/return of "
                 "solve_main (T3) and the threading of the run counter through solve (T4).")
+    rep.explain("Also decided: rho is never below rhoend (interval reasoning over reduce_rho and the parameter table, C10-2b), hence 'rho has reached rhoend' is built at equality; on every path to the one result constructor a success flag implies a tested-finite objective (typestate, C10-6); the tested value may be accumulated in a local (every reaching definition expanded, C10-1); tested means are over the samples run (C10-1c).")
     rep.not_decided += ["whether soln.obj is the small value when averaging noise re-orders points",
                         ]
     rule_messages(eng, rep)
